@@ -6,7 +6,7 @@
     guards on its way fails — and returns [Exit] for every request outside [P].  The first three theorems
     spell out the two clauses of the property that follow from it. *)
 From Coq Require Import ZArith String List Bool Reals Lia.
-From LP Require Import Num NumR OrdLaws C10_Model C10_Proofs C10_Proofs_Num C10_Proofs_Block.
+From LP Require Import Num NumR OrdLaws C10_Model C10_Proofs C10_Proofs_Num C10_Proofs_Block C10_Proofs_Hist.
 Import ListNotations.
 Local Open Scope Z_scope.
 
@@ -295,6 +295,88 @@ Theorem C10_sub_list_and_kde size i1 i2 n :
 Proof. exact (fun H1 H2 H3 H4 => conj (sub_list_ok size i1 i2 H1 H2 H3) (kde_ok n H4)). Qed.
 Print Assumptions C10_sub_list_and_kde.
 
+(** *** the same clauses for a request that is not the first one made on an object / in the process *)
+(** Matrix: Resize, Assign, Delete_Row, Delete_Column, copy, assignment, +=, M = M + B, M = M * B, M = M.Transpose() in any
+    order keep the representation invariant "components holds Rows() rows of Columns() entries" on which every shape guard
+    relies ([mat_wf]); each step exits exactly outside its domain and reads nothing out of bounds. *)
+Theorem C10_matrix_history_keeps_invariant r c ops p m : 0 <= r -> 0 <= c -> Forall mat_op_sizes ops ->
+  mat_session r c ops p = Ok m -> mat_wf m /\ mat_bad_rows m = 0.
+Proof. exact (mat_session_wf r c ops p m). Qed.
+Print Assumptions C10_matrix_history_keeps_invariant.
+Theorem C10_matrix_history_step m o : mat_wf m -> mat_op_sizes o ->
+  (mat_op_meaningful m o -> exists m', mat_step m o = Ok m' /\ mat_wf m') /\ (~ mat_op_meaningful m o -> mat_step m o = Exit).
+Proof.
+  exact (fun Hw Hs => conj (fun H => match proj1 (mat_step_spec m o Hw Hs) H with
+                                     | ex_intro _ m' E => ex_intro _ m' (conj E (mat_step_wf m o m' Hw Hs E)) end)
+                           (proj2 (mat_step_spec m o Hw Hs))).
+Qed.
+Print Assumptions C10_matrix_history_step.
+Theorem C10_matrix_history_memory_safe r c ops : 0 <= r -> 0 <= c -> Forall mat_op_sizes ops ->
+  mat_history (mat_new r c) ops <> OOB /\ mat_history (mat_new r c) ops <> Fuel.
+Proof. exact (fun Hr Hc Hs => mat_history_safe ops (mat_new r c) (mat_new_wf r c Hr Hc) Hs). Qed.
+Print Assumptions C10_matrix_history_memory_safe.
+(** hence, after any history, a request is judged by the theorems above on (Rows(), Columns()); the row and the column handed out
+    by Return_Row / Return_Column have Columns() resp. Rows() entries *)
+Theorem C10_matrix_after_history m : mat_wf m ->
+  (forall i, mat_probe_guard m (PAt i) = guard_mat_index (m_rows m) i) /\
+  (forall r c, mat_probe_guard m (PPlus r c) = guard_mat_plus (m_rows m) (m_cols m) r c) /\
+  (forall r c, mat_probe_guard m (PPlusEq r c) = guard_mat_pluseq (m_rows m) (m_cols m) r c) /\
+  (forall r c, mat_probe_guard m (PMul r c) = guard_mat_product (m_rows m) (m_cols m) r c) /\
+  (forall r c, mat_probe_guard m (PLMul r c) = guard_mat_product r c (m_rows m) (m_cols m)) /\
+  (forall d, mat_probe_guard m (PMatVec d) = guard_mat_vec (m_rows m) (m_cols m) d) /\
+  (forall d, mat_probe_guard m (PVecMat d) = guard_vec_mat d (m_rows m) (m_cols m)) /\
+  mat_probe_guard m PTrace = guard_trace (m_rows m) (m_cols m) /\
+  mat_probe_guard m PDet = guard_determinant (m_rows m) (m_cols m) /\
+  mat_probe_guard m PTranspose = guard_transpose (m_rows m) (m_cols m) /\
+  (forall i j, mat_probe_guard m (PSub i j) = guard_sub_matrix (m_rows m) (m_cols m) i j).
+Proof. exact (mat_probe_wf m). Qed.
+Print Assumptions C10_matrix_after_history.
+Theorem C10_matrix_rows_and_columns_after_history m : mat_wf m ->
+  (forall i, 0 <= i -> decides (mat_probe_guard m (PRow i)) (i < m_rows m)) /\
+  (forall j, 0 <= j -> decides (mat_probe_guard m (PCol j)) (j < m_cols m)) /\
+  mat_probe_guard m PEq = Ok tt.
+Proof. exact (mat_probe_row_col m). Qed.
+Print Assumptions C10_matrix_rows_and_columns_after_history.
+(** Vector: Resize, Assign, copy, assignment, += *)
+Theorem C10_vector_history d ops p v : vec_session d ops p = Ok v ->
+  vec_wf v /\
+  (forall i, vec_probe_guard v (VPAt i) = guard_vec_index (v_dim v) i) /\
+  (forall d', vec_probe_guard v (VPBinary d') = guard_vec_binary (v_dim v) d') /\
+  (forall d', vec_probe_guard v (VPCross d') = guard_cross (v_dim v) d').
+Proof. exact (fun H => conj (vec_session_wf d ops p v H) (vec_probe_wf v (vec_session_wf d ops p v H))). Qed.
+Print Assumptions C10_vector_history.
+(** "Factorial beyond 170" whatever was requested before: a sequence of Factorial / Binomial_Coefficient requests in one
+    process returns iff every single one is meaningful, for every content of the memo table *)
+Theorem C10_factorial_history memo cs : Forall fcall_unsigned cs ->
+  decides (factorial_session ROps memo cs) (Forall fcall_meaningful cs).
+Proof. exact (factorial_session_spec cs memo). Qed.
+Print Assumptions C10_factorial_history.
+(** Interpolation(x, f, x_dim, f_dim): the default (any x_dim <= 0) leaves the table as it is; with a unit x_dim > 0 the
+    converted table is again strictly increasing, `domain` is its first and last abscissa, and "outside the tabulated domain by
+    more than one percent of the edge interval" is judged on the converted table *)
+Theorem C10_interpolation_unit_argument (x_dim : R) (xs : list R) (x : R) : 2 <= zlen xs < 4294967296 -> increasingR xs ->
+  ((x_dim <= 0)%R -> scale_units ROps x_dim xs = xs) /\
+  ((0 < x_dim)%R ->
+     increasingR (scale_units ROps x_dim xs) /\
+     interp_domain (scale_units ROps x_dim xs) = Ok (xr xs 0 * x_dim, xr xs (zlen xs - 1) * x_dim)%R /\
+     let N := zlen xs in
+     let d0 := (xr xs 0 * x_dim)%R in let d1 := (xr xs (N - 1) * x_dim)%R in
+     let tol_left := (1 / 100 * (xr xs 1 * x_dim - xr xs 0 * x_dim))%R in
+     let tol_right := (1 / 100 * (xr xs (N - 1) * x_dim - xr xs (N - 2) * x_dim))%R in
+     (locate ROps (scale_units ROps x_dim xs) x = Exit <-> (x <= d0 - tol_left \/ d1 + tol_right <= x)%R)).
+Proof.
+  exact (fun HN Hi => conj (scale_units_default x_dim xs)
+           (fun Hd => conj (scale_units_increasing x_dim xs Hd Hi) (conj (interp_domain_scaled x_dim xs HN Hd) (locate_units_exit_iff x_dim xs x HN Hi Hd)))).
+Qed.
+Print Assumptions C10_interpolation_unit_argument.
+(** several requests on one Interpolation object (Locate, Interpolate, Derivative, Integrate, Local_Minimum/Maximum,
+    Global_Minimum/Maximum): the sequence exits iff one of its requests does, and nothing is read out of bounds *)
+Theorem C10_interpolation_request_sequence {T} (Ops : NumOps T) (xs : list T) (cs : list (icall (T := T))) : 2 <= zlen xs < 4294967296 ->
+  ((forall c, In c cs -> guard_icall Ops xs c = Ok tt) /\ guard_icalls Ops xs cs = Ok tt) \/
+  ((exists c, In c cs /\ guard_icall Ops xs c = Exit) /\ guard_icalls Ops xs cs = Exit).
+Proof. exact (icalls_spec Ops xs cs). Qed.
+Print Assumptions C10_interpolation_request_sequence.
+
 (** *** non-vacuity: concrete requests on both sides of guards *)
 Example C10_examples :
   guard_vec_index 3 2 = Ok tt /\ guard_vec_index 3 3 = Exit /\ guard_vec_index 3 4294967295 = Exit /\
@@ -302,5 +384,8 @@ Example C10_examples :
   guard_sub_matrix 3 3 (-1) 0 = Exit /\ guard_determinant 4 4 = Ok tt /\ guard_factorial 1 170 = Ok tt /\ guard_factorial 1 171 = Exit /\
   guard_gauss_legendre 2 [2; 1] = Exit /\ guard_transpose_lists [] = Ok tt /\ guard_workload 0 5 = Exit /\
   guard_import_table true [3; 1] 0 0 = Exit /\ guard_import_table true [2; 2] 0 0 = Ok tt /\
-  guard_block [[(2, 2); (2, 1)]; [(1, 2); (1, 1)]] = Ok tt /\ guard_block [[(2, 2); (2, 1)]; [(1, 2)]] = Exit /\ guard_block [] = Exit.
-Proof. repeat split; reflexivity. Qed.
+  guard_block [[(2, 2); (2, 1)]; [(1, 2); (1, 1)]] = Ok tt /\ guard_block [[(2, 2); (2, 1)]; [(1, 2)]] = Exit /\ guard_block [] = Exit /\
+  mat_session 3 3 [MResize 2 5] (PPlus 2 5) = Ok (mat_new 2 5) /\ mat_session 3 3 [MResize 3 2] (PRow 0) = Ok (mat_new 3 2) /\
+  mat_session 3 3 [MResize 2 5; MDelCol 4] (PPlus 2 5) = Exit /\ mat_session 2 3 [MTranspose; MDelRow 3] PNone = Exit /\
+  factorial_session ROps 1 [FFact 170; FFact 3] = Ok tt /\ factorial_session ROps 1 [FFact 170; FFact 171] = Exit.
+Proof. repeat split; try reflexivity; apply C10_factorial_history; repeat constructor; cbn; lia. Qed.
